@@ -2,6 +2,7 @@ package props
 
 import (
 	"fmt"
+	"go/token"
 	"sort"
 	"strings"
 
@@ -103,7 +104,7 @@ func runC06(c *core.Ctx, o Options) {
 		"(b) in the Logon handler with the state read as WaitingLogon after checkLogonParams true, application callback nil-error and start() nil-error, in that order, or (c) a restoration without event whose guard read WaitingTestReqAnswer; " +
 		"and WaitingTestReqAnswer itself is entered only from a logged-on abstract state (otherwise (c) would be a back door). T2: the decision tree of checkLogonParams accepts exactly method∈allowed ∧ Min≤HeartBtInt≤Max and names the offending tag; " +
 		"the acceptor constructor refuses nil/inconsistent limits and an empty method set. T3: every refusal path of the Logon handler has exactly one Reject whose RefSeqNum operand is the Logon's MsgSeqNum (RefTagID the tag reported by the parameter check), " +
-		"no state change, no other send. T4: the Logon reply echoes the HeartBtInt/EncryptMethod that were stored from the incoming Logon on the same path. T5: the initiator's LogonRequest sends Logon with the configured settings, before anything else is sent by Run. " +
+		"no state change, no other send. T4: the Logon reply echoes the HeartBtInt/EncryptMethod that were stored from the incoming Logon on the same path. T6: IsLogged() — what the session reports and what its own handlers consult — is true exactly in the state SuccessfulLogged (on every return path). T5: the initiator's LogonRequest sends Logon with the configured settings, before anything else is sent by Run. " +
 		"M1: changeState triggers the logon event for SuccessfulLogged only. Decided for every inbound history (the rules hold per message in every abstract state); the application callback's own behaviour is not decided."
 	s := newSess(c)
 	if s == nil {
@@ -330,23 +331,11 @@ func runC06(c *core.Ctx, o Options) {
 				continue
 			}
 			sent := chainRoot(an.Unwrap(logonSend.Args[1]))
-			// settings stored on this path
-			var stored *ssa.Alloc
-			for _, e := range t.Events {
-				if e.Kind == "setfield" && e.Name == "LogonSettings" {
-					stored, _ = e.Args[0].(*ssa.Alloc)
-				}
-			}
+			// where the fields of the installed settings come from (symbolic evaluation of the settings object)
 			fieldsFrom := map[string]string{}
-			if stored != nil {
-				for _, ref := range *stored.Referrers() {
-					if fa, ok := ref.(*ssa.FieldAddr); ok {
-						for _, r2 := range *fa.Referrers() {
-							if st, ok := r2.(*ssa.Store); ok && st.Addr == ssa.Value(fa) {
-								fieldsFrom[an.FieldOf(fa).Name()] = an.Render(st.Val)
-							}
-						}
-					}
+			if fl := s.settingsFlow(logonFn); fl.Problem == "" {
+				for _, f := range []string{"HeartBtInt", "EncryptMethod"} {
+					fieldsFrom[f] = fl.fieldSource(f)
 				}
 			}
 			for _, f := range []struct{ setter, field string }{{"SetFieldHeartBtInt", "HeartBtInt"}, {"SetFieldEncryptMethod", "EncryptMethod"}} {
@@ -472,7 +461,8 @@ func runC06(c *core.Ctx, o Options) {
 		}
 	}
 	s.checkEventMapping("M1", map[string]string{"SuccessfulLogged": "EventLogon"})
-	c.RuleMin = map[string]int{"M1": 3, "T1": 6, "T2": 4, "T3": 1, "T4": 1, "T5": 2}
+	s.checkIsLoggedExact("T6")
+	c.RuleMin = map[string]int{"M1": 3, "T1": 6, "T2": 4, "T3": 1, "T4": 1, "T5": 2, "T6": 1}
 	c.MinObl = 17
 }
 
@@ -635,16 +625,43 @@ func (s *sess) checkSettingsPreserved(rule string) {
 			}
 			n++
 			ob := c.Ob(rule, fn.Name(), "replacement of Session.LogonSettings keeps HeartBtLimits, CloseTimeout, LogonTimeout", st.Pos())
+			// the literal: built here, or in a constructor helper of the package that receives the replaced settings
 			al, ok := st.Val.(*ssa.Alloc)
+			var at ssa.Instruction = st
+			oldName := "" // how the replaced settings are called where the literal is built ("" = s.LogonSettings itself)
+			if call, isCall := st.Val.(*ssa.Call); !ok && isCall {
+				if cal := an.StaticCallee(&call.Call); cal != nil && cal.Pkg == fn.Pkg && len(cal.Blocks) > 0 {
+					var ret *ssa.Return
+					nret := 0
+					an.AllInstrs(cal, func(i2 ssa.Instruction) {
+						if r, isR := i2.(*ssa.Return); isR {
+							ret = r
+							nret++
+						}
+					})
+					if nret == 1 && len(ret.Results) == 1 {
+						if al2, isAl := ret.Results[0].(*ssa.Alloc); isAl {
+							for i, a := range call.Call.Args {
+								if strings.HasSuffix(an.Render(a), ".LogonSettings") && i < len(cal.Params) {
+									oldName = cal.Params[i].Name()
+								}
+							}
+							if oldName != "" {
+								al, ok, at = al2, true, ret
+							}
+						}
+					}
+				}
+			}
 			if !ok {
-				ob.Unknown("the new settings are not a composite literal built here: %s", an.Render(st.Val))
+				ob.Unknown("the new settings are not a composite literal built here or in a constructor that is given the replaced settings: %s", an.Render(st.Val))
 				return
 			}
 			got := map[string]string{}
 			for _, ref := range *al.Referrers() {
 				if f2, ok := ref.(*ssa.FieldAddr); ok {
 					for _, r2 := range *f2.Referrers() {
-						if s2, ok := r2.(*ssa.Store); ok && s2.Addr == ssa.Value(f2) && an.Dominates(s2, st) {
+						if s2, ok := r2.(*ssa.Store); ok && s2.Addr == ssa.Value(f2) && an.Dominates(s2, at) {
 							got[an.FieldOf(f2).Name()] = an.Render(s2.Val)
 						}
 					}
@@ -652,7 +669,11 @@ func (s *sess) checkSettingsPreserved(rule string) {
 			}
 			var miss []string
 			for _, f := range []string{"HeartBtLimits", "CloseTimeout", "LogonTimeout"} {
-				if !strings.HasSuffix(got[f], ".LogonSettings."+f) {
+				kept := strings.HasSuffix(got[f], ".LogonSettings."+f)
+				if oldName != "" {
+					kept = got[f] == oldName+"."+f
+				}
+				if !kept {
 					miss = append(miss, fmt.Sprintf("%s ← %q", f, got[f]))
 				}
 			}
@@ -664,4 +685,84 @@ func (s *sess) checkSettingsPreserved(rule string) {
 		})
 	}
 	c.Check(n >= 1, rule, "", "Session.LogonSettings is replaced by the Logon handler", 0, "found", "no post-construction store to Session.LogonSettings found (anchor moved)")
+}
+
+// checkIsLoggedExact (T6): Session.IsLogged returns true exactly when the state read is SuccessfulLogged: it is classified as the
+// reader `state == SuccessfulLogged`, or every path that returns the constant true has compared the state it read equal to that
+// value, no path that returns false has, and any other result is that comparison itself.
+func (s *sess) checkIsLoggedExact(rule string) {
+	c := s.c
+	fn := s.m.Method("IsLogged")
+	if !c.Anchor("logged-on predicate", fn != nil, "(*Session).IsLogged", posOf(fn)) {
+		return
+	}
+	SL := s.m.StateVals["SuccessfulLogged"]
+	ob := c.Ob(rule, "IsLogged", "true exactly in SuccessfulLogged", fn.Pos())
+	if k, ok := s.m.StateReaders[fn]; ok && k == SL {
+		ob.Ok("returns state == SuccessfulLogged")
+		return
+	}
+	isStateRead := func(v ssa.Value) bool {
+		v = an.Unspill(v)
+		if f, _ := an.LoadedField(v); f == s.m.StateField {
+			return true
+		}
+		if call, ok := v.(*ssa.Call); ok {
+			if cal := an.StaticCallee(&call.Call); cal != nil {
+				if k, ok := s.m.StateReaders[cal]; ok && k == -1 {
+					return true
+				}
+			}
+		}
+		return false
+	}
+	isSLTest := func(v ssa.Value) bool {
+		bo, ok := v.(*ssa.BinOp)
+		if !ok || bo.Op != token.EQL {
+			return false
+		}
+		for _, pr := range [][2]ssa.Value{{bo.X, bo.Y}, {bo.Y, bo.X}} {
+			if k, isK := an.ConstInt(pr[1]); isK && k == SL && isStateRead(pr[0]) {
+				return true
+			}
+		}
+		return false
+	}
+	paths, _ := an.EnumPaths(fn, 256)
+	var bad []string
+	n := 0
+	for _, p := range paths {
+		if p.Return == nil || len(p.ResVals) != 1 {
+			continue
+		}
+		n++
+		tested, testedTrue := false, false
+		for _, a := range p.Atoms {
+			if isSLTest(a.Val) {
+				tested = true
+				if a.Taken {
+					testedTrue = true
+				}
+			}
+		}
+		res := an.Unspill(p.ResVals[0])
+		if k, isK := res.(*ssa.Const); isK && k.Value != nil {
+			isTrue := k.Value.String() == "true"
+			switch {
+			case isTrue && !testedTrue:
+				bad = append(bad, "returns true on a path that has not established state == SuccessfulLogged: "+p.CondString())
+			case !isTrue && (testedTrue || !tested):
+				bad = append(bad, "returns false on a path that does not exclude SuccessfulLogged: "+p.CondString())
+			}
+			continue
+		}
+		if !isSLTest(res) {
+			bad = append(bad, "returns "+an.Render(res)+", which is not state == SuccessfulLogged")
+		}
+	}
+	if len(bad) > 0 || n == 0 {
+		ob.Fail("%s", strings.Join(append(bad, fmt.Sprintf("(%d return paths)", n)), "; "))
+	} else {
+		ob.Ok("%d return path(s), each equivalent to state == SuccessfulLogged", n)
+	}
 }
